@@ -386,6 +386,12 @@ pub struct Stats {
     pub obsolete_names: u64,
     pub obsolete_deleted: u64,
     pub obsolete_foreign_names: u64,
+    /// iterations of `make_room_for_write` compared with the model's branch
+    pub room_iterations: u64,
+    pub room_waits: u64,
+    pub room_rotations: u64,
+    pub room_delays: u64,
+    pub room_forced: u64,
     pub persist_directory_exact: u64,
     pub flushes_below_level0: u64,
     pub output_loops_checked: u64,
@@ -508,6 +514,48 @@ fn save_request(req: &str) -> String {
 /// request continues, and the bound on the number of rounds of a request (theorem
 /// C09_manual_rounds_bounded: every round takes at least one file out of the level; files that
 /// flushes and other compactions add to the level meanwhile are counted in).
+/// Every iteration of `DB::make_room_for_write` against the model's branch (`Rain.MakeRoom.branch`;
+/// theorems in `Rain/Props/MakeRoom.lean`): the event carries what the iteration read and the
+/// branch it took. The hypothesis of `C09_prev_wal_error_unreachable` is evaluated on every view.
+pub fn validate_room(drv: &mut crate::drv::Drv, events: &[Event], obs: &mut Vec<Obs>, stats: &mut Stats, at: usize) {
+    let b = |x: bool| if x { "1" } else { "0" };
+    let items: Vec<(&raindb::verif::RoomView, &str)> = events.iter().filter_map(|e| if let Event::MakeRoom { view, branch } = e { Some((view, *branch)) } else { None }).collect();
+    for chunk in items.chunks(400) {
+        let req = format!(
+            "room.branches {}",
+            chunk.iter().map(|(v, _)| format!("{},{},{},{},{},{},{},{}", b(v.force), b(v.allow_delay), b(v.bad), v.level0_files, b(v.fits), b(v.empty), b(v.imm), b(v.prev_wal))).collect::<Vec<_>>().join(";")
+        );
+        let ans = drv.ask(&req);
+        if ans == "no-model" {
+            return;
+        }
+        let got: Vec<&str> = ans.split(',').collect();
+        if got.len() != chunk.len() {
+            obs.push(Obs { sig: "c09:make-room-outside-the-verified-decision".into(), what: format!("the model does not answer ({ans}): {req}"), at });
+            return;
+        }
+        for ((v, branch), g) in chunk.iter().zip(got.iter()) {
+            stats.room_iterations += 1;
+            match *branch {
+                "waitImm" | "waitL0" => stats.room_waits += 1,
+                "rotate" => stats.room_rotations += 1,
+                "delay" => stats.room_delays += 1,
+                _ => {}
+            }
+            if v.force {
+                stats.room_forced += 1;
+            }
+            let model_branch = g.split(':').next().unwrap_or("");
+            if model_branch != *branch {
+                obs.push(Obs { sig: "c09:make-room-outside-the-verified-decision".into(), what: format!("make_room_for_write read {v:?} and took the branch {branch}; the model (Rain.MakeRoom.branch, theorems C09_make_room_never_spins / C09_make_room_waits_only_when_blocked / C09_forced_call_rotates_before_ok) takes {model_branch}"), at });
+            }
+            if v.prev_wal && !v.imm {
+                obs.push(Obs { sig: "c09:make-room-state-outside-the-verified-hypothesis".into(), what: format!("make_room_for_write read {v:?}: a previous WAL number without an immutable memtable (hypothesis of C09_prev_wal_error_unreachable)"), at });
+            }
+        }
+    }
+}
+
 /// Every deletion pass of the real database against the model's decision per NAME
 /// (`Rain.FileNames.deletes`, about which `Rain/Props/FileNames.lean` proves that live names survive,
 /// foreign names are never touched and the pass over names is the pass over numbers): the event
@@ -1223,6 +1271,7 @@ pub fn run_history(h: &History, checks: &Checks, fs: &SimFs) -> RunOut {
     reset_shared_options();
     PERSIST_BUDGET.with(|b| b.set(3));
     raindb::verif::set_seek_events(checks.drv_path.is_some());
+    raindb::verif::set_room_events(checks.drv_path.is_some());
     SEEK.with(|t| t.borrow_mut().reset_all());
     TABLE_SIZES.with(|f| *f.borrow_mut() = Some(fs.clone()));
     sched_reset();
@@ -1255,6 +1304,7 @@ pub fn run_history(h: &History, checks: &Checks, fs: &SimFs) -> RunOut {
         if let Some(dr) = drv.as_mut() {
             validate_events(dr, &events, obs, stats, at, chain);
             validate_obsolete(dr, &events, obs, stats, at);
+            validate_room(dr, &events, obs, stats, at);
             // a snapshot the client held at the previous quiescent point and still holds now was alive
             // during every compaction in between: none of them may have used a larger "smallest
             // snapshot" (the model's view-preservation theorem only protects views at or above it)
